@@ -63,11 +63,12 @@ func runC14(p *core.Prog, r *core.Report) {
 		{Name: "db.mode.NoMetabase()==false", Match: func(s core.Site) bool { return s.Name == modeNM && dbMode(s.Call.Common().Args[0]) }, Comps: []core.Comp{{Result: -1, Kind: core.IsFalse}}},
 	}
 	mbLifecycle := map[string]string{
-		"(*pkg/local_object_storage/metabase.DB).Init":    "opened by the shard in the mode being set; Open(readOnly) makes bbolt itself read-only",
-		"(*pkg/local_object_storage/metabase.DB).init":    "same as Init",
-		"(*pkg/local_object_storage/metabase.DB).Reset":   "lifecycle: called from Shard.Init resync only",
-		"(*pkg/local_object_storage/metabase.DB).SetMode": "re-opens the database",
-		"(*pkg/local_object_storage/metabase.DB).Open":    "lifecycle",
+		"(*pkg/local_object_storage/metabase.DB).Init":         "opened by the shard in the mode being set; Open(readOnly) makes bbolt itself read-only",
+		"(*pkg/local_object_storage/metabase.DB).init":         "same as Init",
+		"(*pkg/local_object_storage/metabase.DB).initWritable": "the write half of init: called by init after its own mode test, and by SetMode right after Open(false) succeeded for a read-write target (the recorded mode is still the old one there, by design: C42.R7)",
+		"(*pkg/local_object_storage/metabase.DB).Reset":        "lifecycle: called from Shard.Init resync only",
+		"(*pkg/local_object_storage/metabase.DB).SetMode":      "re-opens the database",
+		"(*pkg/local_object_storage/metabase.DB).Open":         "lifecycle",
 	}
 	isWriteTx := func(n string) bool {
 		return n == "(*github.com/nspcc-dev/bbolt.DB).Update" || n == "(*github.com/nspcc-dev/bbolt.DB).Batch"
